@@ -100,10 +100,11 @@ type btScen struct {
 	Missing  int    // number of names that are not in the repository, listed first
 	Mode     string // dpor | s0
 	NoStrat  bool   // HTML: do not render the per-strategy reports (they are private to one worker and dominate the cost)
+	Twice    bool   // Run is called twice on the same Backtest and report object; the second run is judged like the first
 }
 
 func (s btScen) String() string {
-	return fmt.Sprintf("assets=%d unknown-names=%d strategies=#%d workers=%d report=%s explicit=%v mode=%s strategyReports=%v", s.NAssets, s.Missing, s.Strats, s.Workers, s.Report, s.Explicit, s.Mode, !s.NoStrat)
+	return fmt.Sprintf("assets=%d unknown-names=%d strategies=#%d workers=%d report=%s explicit=%v mode=%s strategyReports=%v runs=%d", s.NAssets, s.Missing, s.Strats, s.Workers, s.Report, s.Explicit, s.Mode, !s.NoStrat, map[bool]int{false: 1, true: 2}[s.Twice])
 }
 
 func btStrategies(v int) []strategy.Strategy {
@@ -202,99 +203,117 @@ func btScenario(s btScen) explore.Scenario {
 				sort.Strings(got)
 				bt.Names = got
 			}
-			err := bt.Run()
-			returned = true
-			if err != nil {
-				viol = "Run returned " + err.Error()
-				return
+			runs := 1
+			if s.Twice {
+				runs = 2
 			}
-			pairs := len(names) * len(bt.Strategies)
-			last := func(xs []float64) float64 {
-				if len(xs) == 0 {
-					return 0
-				}
-				return xs[len(xs)-1]
-			}
-			switch s.Report {
-			case "recorder":
-				outcome = fmt.Sprint(rec.res, rec.acts)
-				viol = checkProtocol(rec.calls, names, bt.Strategies)
-				if viol == "" && len(rec.res) != pairs {
-					viol = fmt.Sprintf("%d results delivered for %d (asset, strategy) pairs", len(rec.res), pairs)
-				}
-				for k, want := range expected {
-					if viol == "" && !eqF(rec.res[k], want) {
-						viol = fmt.Sprintf("outcomes for %s = %v, direct evaluation on the window gives %v", k, rec.res[k], want)
+			for pass := 1; pass <= runs; pass++ {
+				if pass == 2 {
+					if viol != "" {
+						return
 					}
-					if viol == "" && fmt.Sprint(rec.acts[k]) != fmt.Sprint(expActs[k]) {
-						viol = fmt.Sprintf("actions for %s = %v, direct evaluation on the window gives %v", k, rec.acts[k], expActs[k])
-					}
+					// the same Backtest and the same report object run again (a scheduled re-run): every run stands on its own
+					rec.res, rec.acts, rec.calls = map[string][]float64{}, map[string][]int{}, nil
+					returned = false
+					outcome += " | second run: "
 				}
-			case "data":
-				var keys []string
-				n := 0
-				for a, rs := range data.Results {
-					for i, r := range rs {
-						n++
-						k := a + "/" + r.Strategy.Name()
-						keys = append(keys, fmt.Sprintf("%s=%v/%d", k, r.Outcome, r.Action))
-						if i < len(bt.Strategies) && r.Strategy != bt.Strategies[i] && viol == "" {
-							viol = fmt.Sprintf("results of %s are not in strategy order", a)
+				err := bt.Run()
+				returned = true
+				if err != nil {
+					viol = "Run returned " + err.Error()
+					return
+				}
+				pairs := len(names) * len(bt.Strategies)
+				last := func(xs []float64) float64 {
+					if len(xs) == 0 {
+						return 0
+					}
+					return xs[len(xs)-1]
+				}
+				switch s.Report {
+				case "recorder":
+					outcome += fmt.Sprint(rec.res, rec.acts)
+					viol = checkProtocol(rec.calls, names, bt.Strategies)
+					if viol == "" && len(rec.res) != pairs {
+						viol = fmt.Sprintf("%d results delivered for %d (asset, strategy) pairs", len(rec.res), pairs)
+					}
+					for k, want := range expected {
+						if viol == "" && !eqF(rec.res[k], want) {
+							viol = fmt.Sprintf("outcomes for %s = %v, direct evaluation on the window gives %v", k, rec.res[k], want)
 						}
-						if want, ok := expected[k]; !ok {
-							viol = "result for unknown pair " + k
-						} else if !bitsEq(r.Outcome, last(want)) && viol == "" {
-							viol = fmt.Sprintf("DataReport outcome for %s = %v, direct evaluation gives %v", k, r.Outcome, last(want))
-						} else if viol == "" && fmt.Sprint(toInts(r.Transactions)) != fmt.Sprint(expActs[k]) {
-							viol = fmt.Sprintf("DataReport transactions for %s = %v, direct evaluation gives %v", k, r.Transactions, expActs[k])
+						if viol == "" && fmt.Sprint(rec.acts[k]) != fmt.Sprint(expActs[k]) {
+							viol = fmt.Sprintf("actions for %s = %v, direct evaluation on the window gives %v", k, rec.acts[k], expActs[k])
 						}
 					}
-				}
-				sort.Strings(keys)
-				outcome = strings.Join(keys, " ")
-				if viol == "" && n != pairs {
-					viol = fmt.Sprintf("DataReport holds %d results for %d (asset, strategy) pairs", n, pairs)
-				}
-			case "html":
-				var parts []string
-				for _, name := range names {
-					b, err := os.ReadFile(filepath.Join(dir, name+".html"))
+				case "data":
+					var keys []string
+					n := 0
+					for a, rs := range data.Results {
+						for i, r := range rs {
+							n++
+							k := a + "/" + r.Strategy.Name()
+							keys = append(keys, fmt.Sprintf("%s=%v/%d", k, r.Outcome, r.Action))
+							if i < len(bt.Strategies) && r.Strategy != bt.Strategies[i] && viol == "" {
+								viol = fmt.Sprintf("results of %s are not in strategy order", a)
+							}
+							if want, ok := expected[k]; !ok {
+								viol = "result for unknown pair " + k
+							} else if !bitsEq(r.Outcome, last(want)) && viol == "" {
+								viol = fmt.Sprintf("DataReport outcome for %s = %v, direct evaluation gives %v", k, r.Outcome, last(want))
+							} else if viol == "" && fmt.Sprint(toInts(r.Transactions)) != fmt.Sprint(expActs[k]) {
+								viol = fmt.Sprintf("DataReport transactions for %s = %v, direct evaluation gives %v", k, r.Transactions, expActs[k])
+							}
+						}
+					}
+					sort.Strings(keys)
+					outcome += strings.Join(keys, " ")
+					if viol == "" && n != pairs {
+						viol = fmt.Sprintf("DataReport holds %d results for %d (asset, strategy) pairs", n, pairs)
+					}
+				case "html":
+					var parts []string
+					for _, name := range names {
+						b, err := os.ReadFile(filepath.Join(dir, name+".html"))
+						if err != nil {
+							viol = "asset report missing: " + err.Error()
+							return
+						}
+						vals := parseOutcomes(string(b))
+						parts = append(parts, fmt.Sprintf("%s:%v", name, sortedCopy(vals)))
+						if len(vals) != len(bt.Strategies) && viol == "" {
+							viol = fmt.Sprintf("asset report of %s lists %d results for %d strategies", name, len(vals), len(bt.Strategies))
+						}
+						var want []float64
+						for _, st := range bt.Strategies {
+							want = append(want, round2(last(expected[name+"/"+st.Name()])*100))
+						}
+						if viol == "" && fmt.Sprint(sortedCopy(vals)) != fmt.Sprint(sortedCopy(want)) {
+							viol = fmt.Sprintf("asset report of %s shows outcomes %v, direct evaluation gives %v", name, vals, want)
+						}
+						if viol == "" && !nonIncreasing(vals) {
+							viol = fmt.Sprintf("ranking in the report of asset %s is not in non-increasing outcome order: %v", name, vals)
+							outcome += "KEY:ranking"
+						}
+					}
+					b, err := os.ReadFile(filepath.Join(dir, "index.html"))
 					if err != nil {
-						viol = "asset report missing: " + err.Error()
+						viol = "index.html missing: " + err.Error()
 						return
 					}
 					vals := parseOutcomes(string(b))
-					parts = append(parts, fmt.Sprintf("%s:%v", name, sortedCopy(vals)))
-					if len(vals) != len(bt.Strategies) && viol == "" {
-						viol = fmt.Sprintf("asset report of %s lists %d results for %d strategies", name, len(vals), len(bt.Strategies))
-					}
-					var want []float64
-					for _, st := range bt.Strategies {
-						want = append(want, round2(last(expected[name+"/"+st.Name()])*100))
-					}
-					if viol == "" && fmt.Sprint(sortedCopy(vals)) != fmt.Sprint(sortedCopy(want)) {
-						viol = fmt.Sprintf("asset report of %s shows outcomes %v, direct evaluation gives %v", name, vals, want)
+					parts = append(parts, fmt.Sprintf("index:%v", sortedCopy(vals)))
+					if viol == "" && len(vals) != len(names) {
+						viol = fmt.Sprintf("index lists %d best results for %d assets", len(vals), len(names))
 					}
 					if viol == "" && !nonIncreasing(vals) {
-						viol = fmt.Sprintf("ranking in the report of asset %s is not in non-increasing outcome order: %v", name, vals)
+						viol = fmt.Sprintf("overall ranking (index.html) is not in non-increasing outcome order: %v", vals)
 						outcome += "KEY:ranking"
 					}
+					outcome += strings.Join(parts, " ")
 				}
-				b, err := os.ReadFile(filepath.Join(dir, "index.html"))
-				if err != nil {
-					viol = "index.html missing: " + err.Error()
-					return
+				if pass == 2 && viol != "" {
+					viol = "second Run on the same Backtest and report: " + viol
 				}
-				vals := parseOutcomes(string(b))
-				parts = append(parts, fmt.Sprintf("index:%v", sortedCopy(vals)))
-				if viol == "" && len(vals) != len(names) {
-					viol = fmt.Sprintf("index lists %d best results for %d assets", len(vals), len(names))
-				}
-				if viol == "" && !nonIncreasing(vals) {
-					viol = fmt.Sprintf("overall ranking (index.html) is not in non-increasing outcome order: %v", vals)
-					outcome += "KEY:ranking"
-				}
-				outcome += strings.Join(parts, " ")
 			}
 		}
 		observe := func(res *mc.Result) (string, string) {
@@ -414,7 +433,7 @@ func btScens(tier string) []btScen {
 						if (na > 2 || w > 2 || (na == 2 && sv > 0)) && !(th && sv < 2) {
 							sc.Mode, sc.NoStrat = "s0", false
 						}
-					} else if na == 3 && (w == 3 || sv == 2) && !th {
+					} else if na == 3 && (w == 3 || sv == 2 || (w == 2 && sv == 1)) && !th {
 						sc.Mode = "s0"
 					}
 					out = append(out, sc)
@@ -434,6 +453,18 @@ func btScens(tier string) []btScen {
 						}
 					}
 				}
+			}
+		}
+	}
+	// a second Run on the same Backtest / report object (canonical schedule; the first run's schedules are covered above)
+	for _, rep := range []string{"recorder", "data", "html"} {
+		for na := 1; na <= 3; na++ {
+			for _, w := range []int{1, 2} {
+				mode := "s0"
+				if na == 1 && w == 2 && rep != "html" {
+					mode = "dpor"
+				}
+				out = append(out, btScen{NAssets: na, Strats: 1, Workers: w, Report: rep, Explicit: true, Mode: mode, Twice: true, NoStrat: true})
 			}
 		}
 	}
@@ -501,8 +532,8 @@ func btUnit(c *core.Ctx, scens []btScen) {
 
 func init() {
 	core.Register(&core.Check{
-		ID:   "C13",
-		Rule: "scenarios = 1..3 assets (snapshots inside and outside the 5-day look-back window; outcomes less than one percentage point apart on purpose) x 3 strategy lists (BuyAndHold, scripted stub, both orders) x workers {1,2,3} explored by DPOR with sleep sets over all Mazurkiewicz traces of the real worker pool, workers {4,8,16} under the canonical schedule, x 3 reports (recording, DataReport, HTMLReport rendered and parsed); oracle per execution: Run returns, protocol order, one result per pair equal to direct ComputeWithOutcome on the window, same result set for every schedule, rankings non-increasing, no happens-before race; states = scenarios, non-trivial = scenarios with more than one trace",
+		ID:     "C13",
+		Rule:   "scenarios = 1..3 assets (snapshots inside and outside the 5-day look-back window; outcomes less than one percentage point apart on purpose) x 3 strategy lists (BuyAndHold, scripted stub, both orders) x workers {1,2,3} explored by DPOR with sleep sets over all Mazurkiewicz traces of the real worker pool, workers {4,8,16} under the canonical schedule, x 3 reports (recording, DataReport, HTMLReport rendered and parsed); oracle per execution: Run returns, protocol order, one result per pair equal to direct ComputeWithOutcome on the window, same result set for every schedule, rankings non-increasing, no happens-before race; states = scenarios, non-trivial = scenarios with more than one trace",
 		Assume: []string{"in-memory repository; dates are at least one day away from the look-back bound (time.Now is not controlled)", "HTML outcomes are compared at the two decimals the template prints"},
 		Units: func(tier string) []core.Unit {
 			sc := btScens(tier)
